@@ -36,6 +36,16 @@ def equal(a, b):
     return sym.equal(norm_versions(a), norm_versions(b))
 
 
+def _strip_all_versions(v):
+    if isinstance(v, tuple):
+        if v and v[0] == "fld" and len(v) == 4:
+            return ("fld", _strip_all_versions(v[1]), v[2], 0)
+        if v and v[0] == "rat":
+            return v
+        return tuple(_strip_all_versions(x) for x in v)
+    return v
+
+
 def is_inow(v, obj=SELF):
     """Row index is the `inow` parameter, `data.index.get_loc(date)`, or 0 when the date is 0."""
     v = _strip(v)
@@ -279,6 +289,13 @@ def _outlay_flush(chk, pid, S, fi, host, R):
             if n[0] == "fld" and canon(n[1]) == canon(SELF):
                 acc = n[2]
         ok_aug = aug == "+" and acc is not None and equal(val, cur(e, SELF, acc))
+        if acc is not None and pid == "C07":
+            accv = cur(e, SELF, acc)
+            za = ("zero", sym._abs_norm(sym.to_rat(accv)))
+            own = [l for l in plain(e.guard) if mentions_field(l[0], acc, SELF)]
+            okg = all(canon(l[0]) == canon(za) and l[1] is False for l in own)
+            chk.ob("C07.R4", okg, fi.module, host, "outlay-flush-condition", "a pending outlay is flushed whenever it is non-zero", where=e.where,
+                   expected="unconditional, or under %s != 0" % acc, found=sym.fmt_guard(own))
         chk.ob("C07.R4", ok_aug, fi.module, host, "outlay-flush", "the pending outlay is added to the date's outlay row", where=e.where,
                expected="row += pending outlay", found="row %s= %s" % (aug or "", short(val)))
         if acc is None:
@@ -390,6 +407,7 @@ def ref(self, date, data, inow, newpt):
     val = self._capital
     notl = 0.0
     coupons = 0
+    bop = 0.0
     for c in self._childrenv:
         if c._issec and newpt:
             coupons += c._capital
@@ -398,7 +416,9 @@ def ref(self, date, data, inow, newpt):
         c.update(date, data, inow)
         val += c.value
         notl += abs(c.notional_value)
-    return val + coupons, notl, self._capital + coupons
+        if self._bidoffer_set:
+            bop += c.bidoffer_paid
+    return val + coupons, notl, self._capital + coupons, bop
 '''
 
 
@@ -418,7 +438,7 @@ def strategy_update(chk, pid):
     date_changed = canon(("cmp", "!=", DATE, fld(SELF, "now")))
     ref = chk.ref(STRAT_VALUE_REF.replace("_capital", R.CAPITAL).replace("_needupdate", R.NEEDUPDATE), "StrategyBase", bindings={"newpt": newpt})
     rv = ref.exits[-1][1]
-    ref_val, ref_notl, ref_cap = rv[1], rv[2], rv[3]
+    ref_val, ref_notl, ref_cap, ref_bop = rv[1], rv[2], rv[3], rv[4]
     children_truthy = canon(fld(SELF, "children"))
 
     def children_cases(v):
@@ -477,19 +497,35 @@ def strategy_update(chk, pid):
     # ---- the value / notional are re-recorded whenever they changed (or the date is new)
     if pid in ("C01", "C02", "C08"):
         for w in vw:
-            for a, p in plain(w.guard):
-                a = canon(a)
-                disj = list(a[1:]) if (a[0] == "or" and p) else [a if p else ("not", a)]
-                bad = []
-                for d in disj:
-                    is_date = sym.contains(d, lambda n: n == DATE) or mentions_field(d, "now", SELF)
-                    is_changed = d[0] == "not" and d[1][0] == "zero" and (mentions_field(d[1], R.VALUE, SELF) or mentions_field(d[1], R.NOTIONAL, SELF))
-                    if not (is_date or is_changed):
-                        bad.append(d)
-                chk.ob("C01.R4", not bad, CORE, host, "value-recording-condition",
-                       "the value is re-recorded whenever it differs from the cached one (exact zero test) or the date is new - never skipped under a wider tolerance", where=w.where,
-                       expected="newpt or not is_zero(value - val) or not is_zero(notional - notl)", found="; ".join(short(b, 120) for b in bad) or "ok",
-                       sample={"guard": sym.fmt_guard(w.guard)[:200]})
+            pl = plain(w.guard)
+            old_v = w.old if w.old is not None else fld(SELF, R.VALUE)
+            changed = canon(("not", ("zero", sym._abs_norm(sym.to_rat(("-", old_v, w.value))))))
+            ok = True
+            why = "ok"
+            if pl:
+                if len(pl) != 1 or not (canon(pl[0][0])[0] == "or" and pl[0][1]):
+                    ok, why = False, "recorded only under a conjunction: " + sym.fmt_guard(pl)[:200]
+                else:
+                    disj = list(canon(pl[0][0])[1:])
+                    has_date = any(sym.contains(d, lambda n: n == DATE) or mentions_field(d, "now", SELF) for d in disj)
+                    has_changed = any(canon(d) == changed for d in disj)
+                    other = [d for d in disj if not (sym.contains(d, lambda n: n == DATE) or mentions_field(d, "now", SELF)) and not (
+                        d[0] == "not" and d[1][0] == "zero" and (mentions_field(d[1], R.VALUE, SELF) or mentions_field(d[1], R.NOTIONAL, SELF)))]
+                    ok = has_date and has_changed and not other
+                    why = "; ".join(short(d, 100) for d in disj)
+            chk.ob("C01.R4", ok, CORE, host, "value-recording-condition",
+                   "the value is re-recorded whenever the date is new OR it differs from the cached one (exact zero test of old - new): never skipped under a conjunction or a wider tolerance",
+                   where=w.where, expected="newpt or not is_zero(value - val) [or not is_zero(notional - notl)]", found=why, sample={"guard": sym.fmt_guard(w.guard)[:200]})
+    # ---- C07: a strategy's bid/offer paid is the sum over its (updated) children
+    if pid == "C07":
+        bw = [w for w in S.writes(R.BIDOFFER_PAID, SELF) if w.chain == (S.fn.qual,)]
+        for w in bw:
+            g = G(w)
+            feat = sym.lit_holds(g, fld(SELF, "_bidoffer_set"), True)
+            for gcase, v in children_cases(sym.restrict(w.value, g)):
+                exp = drop_sums(ref_bop) if empty_children(gcase) else ref_bop
+                chk.ob("C07.R2", feat and equal(v, exp), CORE, host, "strategy-bidoffer-paid", "a strategy's bid/offer paid on a date is the sum of its children's", where=w.where,
+                       expected=short(exp, 200), found=short(v, 200))
     # ---- C17.R1 strategy notional
     if pid == "C17":
         nw = S.writes(R.NOTIONAL, SELF)
@@ -529,6 +565,12 @@ def strategy_update(chk, pid):
                 continue
             base = sym.restrict(the_notl if is_fi else the_val, g)
             numer_field = R.NOTIONAL if is_fi else R.VALUE
+            elem_lits = [l for l in plain(w.guard) if sym.contains(l[0], lambda n: n == c) and not sym.contains(l[0], lambda n: n[0] == "sum")]
+            skip = canon(("and", ("fld", c, "_issec", 0), ("not", ("fld", c, R.NEEDUPDATE, 0))))
+            okf = all(canon(_strip_all_versions(l[0])) == canon(skip) and l[1] is False for l in elem_lits)
+            chk.ob("C01.R3", okf, CORE, host, "weight-loop-filter:%s" % ("fi" if is_fi else "mv"),
+                   "weights are recomputed for exactly the children whose values were recomputed (only flat, dormant securities are skipped)", where=w.where,
+                   expected="skip only when c._issec and not c.%s" % R.NEEDUPDATE, found=sym.fmt_guard(elem_lits)[:200])
             vv = sym.restrict(w.value, g)
             zb = ("zero", sym._abs_norm(sym.to_rat(base)))
             if canon(vv) == canon(sym.ZERO):
@@ -1772,3 +1814,35 @@ def writable_history_views(chk, pid):
                    expected="flags.writeable = True on the very view that is written", found="direct write through a read-only view" if not ok else "enabled",
                    sample={"series": sn, "pandas": pv})
     chk.floor_count("C10.R4:in-place history writes", n, 15)
+
+
+# ------------------------------------------------------------------------------------------------
+# refresh-before-trade (C02 / C05 / C08): a security that lags behind its parent's date is brought up to date before it is priced
+
+
+def refresh_before_trade(chk, pid):
+    R = Roles(chk.prog)
+    for name in ("allocate", "transact"):
+        S = chk.summary(CORE, "SecurityBase", name, host="SecurityBase", no_inline=("outlay", "transact", "update", "commission"))
+        host = "SecurityBase.%s" % name
+        ups = [e for e in S.calls("update") if e.recv == SELF]
+        users = [e for e in S.calls("outlay") + S.calls("transact") if e.recv == SELF]
+        chk.need(users, "%s no longer prices the trade" % host)
+        ok = bool(ups) and all(ups[0].seq < u.seq for u in users)
+        chk.ob("C02.R5", ok, CORE, host, "refresh-precedes-pricing", "a security is refreshed before it is priced for a trade", where=S.fn.where)
+        if not ups:
+            continue
+        u = ups[0]
+        a0 = u.args[0] if u.args else None
+        okd = a0 is not None and a0[0] == "fld" and a0[2] == "now" and a0[1][0] == "fld" and a0[1][2] in ("parent", "root")
+        chk.ob("C02.R5", okd, CORE, host, "refresh-to-tree-date", "the refresh brings the security to its parent's current date", where=u.where, found=short(a0) if a0 else "?")
+        # the refresh must happen in both lagging scenarios: needupdate set, or the clock differs from the parent's
+        need = fld(SELF, R.NEEDUPDATE)
+        same = ("cmp", "==", fld(SELF, "now"), fld(fld(SELF, "parent"), "now"))
+        base = [(("param", "update_self"), True)] if "update_self" in S.fn.params else []
+        scen = {"needupdate": base + [(need, True), (canon(same), True)], "lagging-clock": base + [(need, False), (canon(same), False)]}
+        for k, lits_ in scen.items():
+            g = sym.sat(lits_)
+            ok = all(sym.lit_holds(g, a, p) for a, p in plain(u.guard))
+            chk.ob("C02.R5", ok, CORE, host, "refresh-when:%s" % k, "the refresh is performed whenever the security needs an update or its clock lags behind its parent's", where=u.where,
+                   expected="update under needupdate or now != parent.now", found=sym.fmt_guard(plain(u.guard)), sample={"scenario": k, "guard": sym.fmt_guard(plain(u.guard))})
